@@ -63,7 +63,7 @@ func c01() {
 	run := vlib.NewRun("C01", "translation_validation")
 	_, ts := mustTargets(run)
 	cat := c01Catalogue(ts)
-	nRandom := run.N(500, 20000)
+	nRandom := run.N(4000, 60000)
 	total := len(cat) + nRandom
 
 	var mu sync.Mutex
